@@ -17,6 +17,7 @@ RULE = (
     "n_total in {1,4,8}xN x d in {1,2,3} x zero-likelihood region; each row = one Sampler.run on an instrumented target, then all 2^4 "
     "combinations of posterior(resample, trim_importance_weights, return_blobs, return_logw) with seed-drawn ess_trim in (0.5,0.999) and "
     "bins_trim in {1,2,10,100,1000}. Non-trivial = trimming removed >=1 sample and the run has >=3 batches. distinct = (row, seed)."
+    ' The *_full check draws a complete configuration with vlib.cfggen: every constructor option gets a generated value in every case (d, evaluation mode incl. one/two blobs, zero-likelihood region, narrow target, kernel, resampler, clustering, normalize, cluster_every, n_max_clusters, split_threshold, ess_ratio, ESS/volume-variation metric, n_particles incl. odd, n_steps/n_max_steps, periodic/reflective indices, pool kind, extra likelihood args/kwargs, random_state int/NumPy-int/None); the oracle is the same.'
 )
 ASSUMPTIONS = [
     "reference MIS weights/evidence/ESS recomputed from the stored history in long double (vlib.refs); tolerances 1e-9",
